@@ -616,11 +616,20 @@ def argmin(a, axis=None):
 # ---- sorting (forks: the permutation is made concrete per path) ----------------------
 def _sort_perm(vals, stable=True):
     """insertion sort with forking comparisons -> permutation (stable)"""
+    def isn(x):
+        return isinstance(x, _pyfloat) and x != x
+
+    def less(a, b):         # numpy sorts NaN last
+        if isn(a):
+            return False
+        if isn(b):
+            return True
+        return _pybool(lt(a, b))
     order = []
     for i, v in enumerate(vals):
         pos = len(order)
         # find insertion point from the right: keep stability
-        while pos > 0 and _pybool(lt(v, vals[order[pos - 1]])):
+        while pos > 0 and less(v, vals[order[pos - 1]]):
             pos -= 1
         order.insert(pos, i)
     return order
